@@ -376,7 +376,7 @@ def rule_update_order(prog):
         return out
     b = bs[0]
     blk = None
-    for cand in hir.nodes(b["body"], "Block"):
+    for cand in (x for x in hir.nodes_deep(prog, b["body"], 2) if x.get("k") == "Block"):
         direct = cand["stmts"] + ([cand["expr"]] if cand.get("expr") else [])
         for st in direct:
             e = st.get("init") if st.get("k") == "Let" else st.get("e", st)
